@@ -202,9 +202,11 @@ def gen_life(rng, sc, nops):
                 k = rng.random()
                 s = rng.choice(sids)
                 cnt[0] += 1
-                if k < 0.2:
-                    ops.append(("N", rng.choice(["subme", "subfnd"]), [s]))
-                elif k < 0.45:
+                if k < 0.25:
+                    which = rng.choice(["me", "fnd"])
+                    ops.append(("N", "sub" + which, [s]))
+                    ops.append(("N", "pub" + which, [s, cnt[0]]))      # attached: refused for want of W (ModeCSelf)
+                elif k < 0.5:
                     ops.append(("N", rng.choice(["pubme", "pubfnd"]), [s, cnt[0]]))
                 else:
                     ops.append((rand_fault(rng, 0.3, ks=(1, 2, 2, 3)), "pubsys", [s, cnt[0]]))
